@@ -85,24 +85,6 @@ typedef uint32_t elem_t;
 #define ESIZE 4
 #endif
 
-/* Allocation sizes become constants by case analysis (a symbolic size handed to malloc/memset inside a merged history is what makes
- * CBMC blow up); semantics unchanged: exact-size blocks.  Sizes requested by these containers are multiples of sizeof(T). */
-#if defined(__CPROVER__) && defined(C13_SPLIT_ALLOC)
-#define C13_MAXELEMS (2 * MAXN + 2)
-static void *c13_malloc(size_t s) {
-	for(size_t k = 1; k <= C13_MAXELEMS; k++) if(s == k * ESIZE) return (malloc)(k * ESIZE);
-	if(s == 1) return (malloc)(1);
-	return (malloc)(s);
-}
-static void *c13_memset(void *p, int c, size_t n) {
-	for(size_t k = 1; k <= C13_MAXELEMS; k++) if(n == k * ESIZE) return (memset)(p, c, k * ESIZE);
-	if(n == 0) return p;
-	uint8_t *q = (uint8_t *)p; for(size_t i = 0; i < n; i++) q[i] = (uint8_t)c;
-	return p;
-}
-#define malloc(s) c13_malloc(s)
-#define memset(p, c, n) c13_memset((p), (c), (n))
-#endif
 #ifndef VP_MAXBLK
 #define VP_MAXBLK 16
 #endif
@@ -111,10 +93,49 @@ static void *c13_memset(void *p, int c, size_t n) {
 #if defined(VP_NATIVE) && !defined(__SANITIZE_ADDRESS__)
 #define VP_NO_REAL_FREE
 #endif
+/* vp_track.h keeps the lifetime state INSIDE the object, so an object whose bytes are copied to another address (no constructor call) carries
+ * its "alive" mark along and the registry cannot notice.  For T=tracked the hooks are therefore wrapped here: every constructor also records
+ * (in the padding bytes of `tracked`) a tag of the address the object was constructed at, and every later use of the object — as source of a
+ * copy/move, as target of an assignment, at destruction, and when the harness reads it through an accessor — checks that it still lives there. */
+#if C13_TRK
+#define vp_ctor vp_track_ctor
+#define vp_ctor_default vp_track_ctor_default
+#define vp_copy vp_track_copy
+#define vp_move vp_track_move
+#define vp_assign_copy vp_track_assign_copy
+#define vp_assign_move vp_track_assign_move
+#define vp_dtor vp_track_dtor
+#endif
 #include "vp_track.h"
-#if defined(__CPROVER__) && defined(C13_SPLIT_ALLOC)
-#undef malloc
-#undef memset
+#if C13_TRK
+#undef vp_ctor
+#undef vp_ctor_default
+#undef vp_copy
+#undef vp_move
+#undef vp_assign_copy
+#undef vp_assign_move
+#undef vp_dtor
+static uint32_t c13_addr_tag(const void *p) {
+#ifdef __CPROVER__
+	return ((uint32_t)__CPROVER_POINTER_OBJECT(p) * 256u + (uint32_t)(__CPROVER_POINTER_OFFSET(p) >> 2)) & 0xFFFFFFu;
+#else
+	return (uint32_t)((uintptr_t)p >> 2) & 0xFFFFFFu;
+#endif
+}
+static void c13_born(void *self) { vp_tracked *t = (vp_tracked *)self; uint32_t g = c13_addr_tag(self); t->pad[0] = (uint8_t)g; t->pad[1] = (uint8_t)(g >> 8); t->pad[2] = (uint8_t)(g >> 16); }
+static void c13_here(const void *o) {
+	const vp_tracked *t = (const vp_tracked *)o; uint32_t g = c13_addr_tag(o);
+	if(t->state == VP_ALIVE || t->state == VP_MOVED)
+		VP_ASSERT(t->pad[0] == (uint8_t)g && t->pad[1] == (uint8_t)(g >> 8) && t->pad[2] == (uint8_t)(g >> 16),
+		          "lifetime: object used at an address where it was never constructed (its bytes were relocated without a constructor call)");
+}
+void vp_ctor(void *self, int32_t val) { vp_track_ctor(self, val); c13_born(self); }
+void vp_ctor_default(void *self) { vp_track_ctor_default(self); c13_born(self); }
+void vp_copy(void *self, void *src) { c13_here(src); vp_track_copy(self, src); c13_born(self); }
+void vp_move(void *self, void *src) { c13_here(src); vp_track_move(self, src); c13_born(self); }
+void vp_assign_copy(void *self, void *src) { c13_here(src); c13_here(self); vp_track_assign_copy(self, src); }
+void vp_assign_move(void *self, void *src) { c13_here(src); c13_here(self); vp_track_assign_move(self, src); }
+void vp_dtor(void *self) { c13_here(self); vp_track_dtor(self); }
 #endif
 
 #if C13_CONT == 1
@@ -143,7 +164,7 @@ static void ref_swap(void) { for(int i = 0; i < MAXN; i++) { int32_t t = refA[i]
 static int ref_eq(void) { if(lenA != lenB) return 0; for(int i = 0; i < MAXN; i++) if(i < lenA && refA[i] != refB[i]) return 0; return 1; }
 
 #if C13_TRK
-#define ELEM_OK(p) VP_ASSERT((p)->f1 == VP_ALIVE, "lifetime: an element the container exposes is not a live object (never constructed, destroyed, or moved-from)")
+#define ELEM_OK(p) do { VP_ASSERT((p)->f1 == VP_ALIVE, "lifetime: an element the container exposes is not a live object (never constructed, destroyed, or moved-from)"); c13_here(p); } while(0)
 #else
 #define ELEM_OK(p) ((void)0)
 #endif
@@ -152,6 +173,7 @@ static int ref_eq(void) { if(lenA != lenB) return 0; for(int i = 0; i < MAXN; i+
  * take an index (operator[] both overloads, the iteration protocol) are called with ONE solver-chosen index k, which the solver quantifies over
  * all valid indices (same strength as a loop over every index, far fewer calls per explored case). */
 static void check_one(cont_t *c, const int32_t *r, int n) {
+	uint64_t k, cnt = 0; VP_INPUT(k); VP_NATIVE_ONLY(k &= 7;)        /* the solver-chosen index (logged first, so that every counterexample has an input file) */
 	VP_ASSERT(c_size(c) == (uint64_t)n, "size() differs from the reference length");
 	VP_ASSERT((c_empty(c) != 0) == (n == 0), "empty() is not (size() == 0)");
 #if !IS_STACK
@@ -162,7 +184,7 @@ static void check_one(cont_t *c, const int32_t *r, int n) {
 		ELEM_OK(&b[i]);
 		VP_ASSERT(VAL(&b[i]) == r[i], "element i of [begin(), end()) differs from the reference sequence");
 	}
-	{	uint64_t k, cnt = 0; VP_INPUT(k); VP_NATIVE_ONLY(k &= 7;)
+	{
 		if(k < (uint64_t)n) {
 			elem_t *p = c_at(c, k);
 			VP_ASSERT(p == b + k && c_cat(c, k) == p, "operator[](k) does not address the k-th slot of the buffer");
@@ -175,9 +197,9 @@ static void check_one(cont_t *c, const int32_t *r, int n) {
 #endif
 #if IS_VEC || IS_SV
 	if(n > 0) {
-		elem_t *f = c_front(c), *k = c_back(c);
+		elem_t *f = c_front(c), *l = c_back(c);
 		VP_ASSERT(f == b && c_cfront(c) == f, "front() is not the first element");
-		VP_ASSERT(k == b + (n - 1) && c_cback(c) == k, "back() is not the last element");
+		VP_ASSERT(l == b + (n - 1) && c_cback(c) == l, "back() is not the last element");
 	}
 #endif
 #if IS_STACK
@@ -325,7 +347,15 @@ static void run(int depth) {
 	else if(IS_LEN_OP(op)) { for(int j = 0; j < NLENS; j++) if(li == j) { run_op(depth, op, x, idx, LENS_[j]); return; } }
 	else run_op(depth, op, x, idx, 0);
 }
+#ifdef __CPROVER__
+/* --slice-formula drops assignments no assertion depends on — including the input log the runner reads counterexamples from.
+ * This (always reachable) witness depends on every logged input and so keeps the log in the formula and in every trace. */
+static void c13_keep_inputs(void) { uint64_t h = 0; for(int i = 0; i < vp_in_n; i++) h += vp_in_log[i]; VP_WITNESS(h != 0x5EEDu, "input log kept in the sliced formula"); }
+#else
+static void c13_keep_inputs(void) { }
+#endif
 static void finish(void) {
+	c13_keep_inputs();
 	VP_WITNESS(nops < NSCRIPT + K, "the concrete prefix and K solver-chosen operations were executed");
 	/* non-vacuity per operation: every operation the shape model expects to be applicable after the prefix (-DEXPECT_OPS, bit = operation code)
 	 * must really be executed by some history; an operation that silently never runs makes the check BROKEN, not green */
